@@ -120,7 +120,34 @@ def struct_implied(target):
         # ancestor (CodeSTRUCT rejects a free-standing unnamed structure and
         # ENDSTRUCT recomputes the innermost named one from the stack)
         return target[1] == 'pInnermostNamedStruct' and a[0] == 'nz' and a[1] == ('g', 'StructStack')
-    return [p, q]
+
+    def r(a):
+        # implied fact (v): pInnermostNamedStruct, when non-NULL, is an element of the open structure stack
+        # (supported by support_innermost(): its writers assign NULL, the head just pushed, or walk the stack)
+        return target[1] == 'StructStack' and a[0] == 'nz' and a[1] == ('g', 'pInnermostNamedStruct')
+    return [p, q, r]
+
+
+def support_innermost(chk, facts):
+    P = facts.program('asl')
+    for (f, how, ln, node, b, i) in P.write_index().get('pInnermostNamedStruct', []):
+        ok = False
+        if how == '=' and is_assign(node):
+            rv = nocast(node[3])
+            if const_val(rv) == 0 or (is_assign(rv) and const_val(rv[3]) == 0):
+                ok = True
+            elif rv == ('g', 'StructStack'):
+                ok = True
+            elif rv[0] == 'm' and rv[2].endswith('.Next') and nocast(rv[1]) == ('g', 'pInnermostNamedStruct'):
+                ok = True
+            elif rv[0] == 'l':
+                # the local was stored into StructStack on every path before
+                ok = f.guarded(b, i, lambda l: False, lambda ex, rv=rv: any(
+                    is_assign(m) and strip(m[2]) == ('g', 'StructStack') and nocast(m[3]) == rv for m in walk_own(ex)))[0]
+        chk.ob('C03-R2', 'support:pInnermostNamedStruct-in-stack:%s:%d' % (f.name, ln), ok, f.loc(ln),
+               'NULL, the stack head, or a walk along the stack' if ok else
+               'pInnermostNamedStruct is given a value that is not known to be an element of the structure stack: the '
+               'implied fact "pInnermostNamedStruct != NULL => StructStack != NULL" no longer holds')
 
 
 def rule_r2(chk, facts):
@@ -161,9 +188,51 @@ def rule_r2(chk, facts):
                 a[0] = False
                 a[1] = '%s dereferenced at line %d without a null test on path %s' % (show(node), ln, ' '.join(w[-6:]))
                 a[2] = f.loc(ln)
+    # the same through a local copy of a head: L = HEAD; ... L->field
+    for f in P.all_funcs():
+        copies = {}
+        for bid, i, ln, node in f.nodes():
+            src = None
+            if is_assign(node) and node[1] == '=' and strip(node[2])[0] == 'l':
+                src, dst = nocast(node[3]), strip(node[2])
+            elif node[0] == 'decl' and node[2] is not None:
+                src, dst = nocast(node[2]), ('l', node[1])
+            if src is not None and isinstance(src, tuple) and src and src[0] in ('g', 'gs') and src[1] in HEADS:
+                copies.setdefault(dst, []).append(src)
+        if not copies:
+            continue
+        for bid, i, ln, node in f.nodes():
+            if not (node[0] == 'm' and node[3] == 1):
+                continue
+            L = nocast(node[1])
+            if L not in copies:
+                continue
+            rd = f.reaching_defs(bid, i, L)
+            heads = set()
+            for d in rd:
+                r = nocast(d[3]) if is_assign(d) else (nocast(d[2]) if d[0] == 'decl' else None)
+                if isinstance(r, tuple) and r and r[0] in ('g', 'gs') and r[1] in HEADS:
+                    heads.add(r)
+            if not heads:
+                continue
+            nsites += 1
+            for head in heads:
+                implied = struct_implied(head)
+                e1, e2 = nz_guard(head, implied), nz_guard(L)
+                el1, el2 = assigns_nonnull(head), assigns_nonnull(L)
+                ok, w, how = guarded_with_lift(P, f, bid, i, lambda l, e1=e1, e2=e2: e1(l) or e2(l),
+                                               lambda ex, el1=el1, el2=el2: el1(ex) or el2(ex))
+                key = '%s:%s:%s' % (f.unit.name, f.name, head[1])
+                a = agg.setdefault(key, [True, '', f.loc(ln), how])
+                if not ok and a[0]:
+                    a[0] = False
+                    a[1] = '%s (a copy of %s) dereferenced at line %d without a null test on path %s' % (
+                        show(node), head[1], ln, ' '.join(w[-6:]))
+                    a[2] = f.loc(ln)
     for key, (ok, detail, loc, how) in sorted(agg.items()):
         chk.ob('C03-R2', key, ok, loc, detail or ('guarded (%s)' % how))
     chk.extra['head_deref_sites'] = nsites
+    support_innermost(chk, facts)
 
 
 def filled_under_validsegs(P, g, v):
